@@ -398,6 +398,12 @@ def np_call(ev, name, args, kwargs, node):
             return kwargs[kw]
         return default
 
+    ow = kwargs.get("overwrite_input")
+    if ow is not None and ow != Const(False) and A:
+        # numpy may partition / overwrite the first argument in place
+        root = storage_root(as_v(ev, A[0]))
+        if root is not None:
+            ev.event("inplace", how="overwrite_input=", root=root, target="arg0", node=node, value=A[0])
     if name in ("asarray", "array", "asanyarray", "ascontiguousarray"):
         x = arg(0, "a")
         if x is None:
@@ -827,6 +833,17 @@ def call_method(ev, recv, name, args, kwargs, node):
             return Lst(list(recv.items.values())) if not recv.unknown else App("dict.values", (as_v(ev, recv),))
         if name == "items":
             return Lst([Tup([k, as_v(ev, v)]) for k, v in recv.items.items()]) if not recv.unknown else App("dict.items", (as_v(ev, recv),))
+        if name == "update" and len(args) == 1 and not kwargs and isinstance(args[0], Dct) and not args[0].unknown:
+            recv.items.update(args[0].items)
+            return Const(None)
+        if name == "clear" and not args:
+            recv.items.clear()
+            recv.unknown = False
+            return Const(None)
+        if name == "copy" and not args:
+            d = Dct(recv.items)
+            d.unknown = recv.unknown
+            return d
         if name in ("update", "pop", "setdefault"):
             recv.unknown = True
             return Top("dict mutation")
